@@ -197,6 +197,15 @@ func checkC06(c *run.Ctx) {
 		default:
 			penv = map[string]string{"A": "pa", "B": "pb", "C": "pc", "D": "pd", "SHARED": "ps"}
 		}
+		if len(penv) > 0 && r.IntN(3) == 0 {
+			// an empty pipeline variable is still a variable
+			ks := make([]string, 0, len(penv))
+			for k := range penv {
+				ks = append(ks, k)
+			}
+			sort.Strings(ks)
+			penv[ks[r.IntN(len(ks))]] = ""
+		}
 		penvCopy := copyEnv(penv)
 		if penv == nil {
 			penvCopy = nil
